@@ -148,12 +148,27 @@ Definition marks_at_pos (its : list item) (p : N) : markset := at_pos (marking i
 Definition marks_at_elem (its : list item) (i : nat) : markset :=
   match nth_error (marking its []) i with Some e => p_set e | None => [] end.
 
-(* ---------- get_marks(i): [iter.nth(i)] over the visible elements, then the state machine's set.
-   NOTE the index counts ELEMENTS, not width units; past the end the walk has consumed every mark. *)
-Definition get_marks (its : list item) (i : nat) : markset :=
-  match nth_error (marking its []) i with
+(* ---------- get_marks(index): walk the visible elements adding up their widths and stop at the element
+   whose span covers [index] (units of the text encoding, like every other text index); the state
+   machine's set at that element is the answer.  Past the end the walk has consumed every mark. *)
+Fixpoint gm_walk (m : list pent) (index end_ : N) : option pent :=
+  match m with
+  | [] => None
+  | e :: t => if index <? end_ + p_w e then Some e else gm_walk t index (end_ + p_w e)
+  end.
+
+Definition get_marks (its : list item) (index : N) : markset :=
+  match gm_walk (marking its []) index 0 with
   | Some e => without_unmarks (p_set e)
   | None => without_unmarks (current (final_open its))
+  end.
+
+(* length of the text: total width of its visible characters (seq_length / length_for) *)
+Fixpoint items_len (l : list item) : N :=
+  match l with
+  | [] => 0
+  | IChar _ true w _ :: t => w + items_len t
+  | _ :: t => items_len t
   end.
 
 (* ---------- marks(): calculate_marks_slow + MarkAccumulator ---------- *)
@@ -321,13 +336,19 @@ Definition pos_of (its : list item) (id : opid) : option nat :=
 Definition end_after (t : tx) (obj begin : opid) (ex : bool) : tx :=
   push t (mkOp (next_id t) obj (KSeq begin) true (AMarkEnd ex) []).
 
-(* TransactionInner::mark on a text object.  The status is what the caller gets; NOTE that when the
-   end index is invalid the code returns the error AFTER it has inserted the begin op, which stays
-   in the transaction. *)
+(* TransactionInner::mark on a text object.  The status is what the caller gets.  The code checks both
+   indexes against the length first (since 4cf188c2a); the later failure exits are mirrored as they
+   stand (the end query after the begin was inserted would leave the begin behind — see
+   MarksProofs.anchor_total for why it cannot fail once the indexes are in range). *)
 Definition mark_text (e : enc) (t : tx) (obj : opid) (start end_ : N) (n : mname) (v : scalar) (x : expand_mode)
   : tx * status :=
   if (start =? end_) && x_none x then (t, None)
   else
+    (* both anchors are validated before anything is inserted *)
+    let len := items_len (text_items e t obj) in
+    if len <? start then (t, Some EInvalidIndex)
+    else if len <? end_ then (t, Some EInvalidIndex)
+    else
     match do_insert_m e t obj start (AMarkBegin (x_before x) n v) with
     | EErr er => (t, Some er)
     | EPanic => (t, Some EInvalidOp)                      (* unreachable *)
